@@ -27,12 +27,13 @@ def ext(M, fq, f):
 
 
 # ----------------------------------------------------------------------------- R09.1
-def wrapped_states(M, fn):
-    """must-analysis: set of Atoms-valued names known to be wrapped at entry of each CFG node"""
+def wrapped_states(M, fn, entry_wrapped=()):
+    """must-analysis: set of Atoms-valued names known to be wrapped at entry of each CFG node (entry_wrapped: parameters whose caller
+    guarantees the state)"""
     cfg = CFG(fn)
     TOP = None
     IN = {n: TOP for n in cfg.g.nodes}
-    IN[cfg.entry] = frozenset()
+    IN[cfg.entry] = frozenset(entry_wrapped)
     work = [cfg.entry]
     OUT = {}
 
@@ -45,8 +46,10 @@ def wrapped_states(M, fn):
             v, m = s.value.func.value.id, s.value.func.attr
             if m == "wrap":
                 kws = {k.arg: k.value for k in s.value.keywords}
-                if "pbc" not in kws:          # wrap(pbc=...) overrides the periodicity: not the state we need
+                if "pbc" not in kws and not s.value.args:          # wrap(pbc=...) overrides the periodicity: not the state we need
                     st.add(v)
+                else:
+                    st.discard(v)
             elif m in UNWRAP_MUT:
                 st.discard(v)
         elif isinstance(s, ast.Assign):
@@ -133,10 +136,12 @@ def positions_wrapped(M, fl, IN, expr, at, depth=0):
     return False, f"`{norm(expr)[:60]}` is not a recognised wrapped-position source"
 
 
-def r09_1(rep, M, rid):
+def r09_1(rep, M, rid, caller_wraps=False):
+    """caller_wraps: the borrowing property's entry point hands in a structure it has wrapped itself (checked there), so only what
+    get_dimensionality does to it afterwards matters"""
     fn = M.func(FQ)
     fl = Flow(fn)
-    cfg, IN = wrapped_states(M, fn)
+    cfg, IN = wrapped_states(M, fn, entry_wrapped=(M.params(FQ)[0],) if caller_wraps else ())
     # map statement -> node ids are identical between the two CFG builds (same deterministic construction)
     calls = [(n, c) for n, d in fl.cfg.g.nodes(data=True) if d["ast"] is not None
              for c in walk_own(d["ast"]) if isinstance(c, ast.Call) and DISP in M.callees_of_call(FQ, c)]
@@ -211,8 +216,20 @@ def r09_2(rep, M, rid, only_first=False):
     fl = Flow(fn)
     thr = M.params(FQ)[1]
 
+    def defaulted_param(name, at):
+        """the parameter itself, or the parameter after `if name is None: name = <default>` (the caller's value whenever one was given)"""
+        defs = fl.rd[at].get(name, frozenset())
+        if fl.cfg.entry not in defs:
+            return False
+        for d in defs - {fl.cfg.entry}:
+            conds = fl.cfg.branch_conditions(d)
+            if not any(pol and isinstance(getattr(t, "test", None), ast.Compare) and isinstance(t.test.ops[0], ast.Is) and norm(t.test.left) == name
+                       and isinstance(t.test.comparators[0], ast.Constant) and t.test.comparators[0].value is None for t, pol in conds):
+                return False
+        return True
+
     def atoms(e, at):
-        if isinstance(e, ast.Name) and fl.rd[at].get(e.id) == frozenset([fl.cfg.entry]) and e.id == thr:
+        if isinstance(e, ast.Name) and e.id == thr and defaulted_param(e.id, at):
             return "threshold"
         if isinstance(e, ast.Name) and not fl.rd[at].get(e.id):
             # not a local: a module-level constant cannot follow the caller's threshold / radii setting
@@ -372,7 +389,11 @@ def r09_3(rep, M, rid):
     cl = [c for c in ast.walk(fn) if isinstance(c, ast.Call) and CLUST in M.callees_of_call(FQ, c)]
     if len(cl) != 2:
         raise AnalysisError("expected two get_clusters calls in get_dimensionality")
-    sig = [(norm(c.args[1]) if len(c.args) > 1 else None, sorted((k.arg, norm(k.value)) for k in c.keywords)) for c in cl]
+    cps = M.params(CLUST)
+    sig = []
+    for c in cl:
+        b = M.bind_args(CLUST, c)
+        sig.append((norm(b[cps[1]]) if cps[1] in b else None, sorted((k, norm(v)) for k, v in b.items() if k not in cps[:2])))
     if sig[0] == sig[1] and sig[0][0] == M.params(FQ)[1] and ("min_samples", "1") in sig[0][1]:
         rep.ok(rid, "1x and 2x clusterings: same threshold, min_samples=1")
     else:
@@ -492,10 +513,24 @@ def r09_6(rep, M, rid, only_first=False):
         if pc is None or cc is None:
             raise AnalysisError(f"{construct}: sources of positions / cell not resolved")
 
+        def related(a, a_at):
+            """the name, what it is an alias of, and what it is a .copy() of (a copy keeps the cell; set_cell on either side is checked by the wrapped-state rule)"""
+            out = {a}
+            for d in fl.rd[a_at].get(a, ()):
+                if d == fl.cfg.entry:
+                    continue
+                for v in fl.def_value(d, a):
+                    if v[0] != "expr":
+                        continue
+                    if isinstance(v[1], ast.Name):
+                        out.add(v[1].id)
+                    elif isinstance(v[1], ast.Call) and isinstance(v[1].func, ast.Attribute) and v[1].func.attr == "copy" and not v[1].args \
+                            and isinstance(v[1].func.value, ast.Name):
+                        out.add(v[1].func.value.id)
+            return out
+
         def same_obj(a, a_at, b2, b_at):
-            ra = {a} | {x.id for d in fl.rd[a_at].get(a, ()) if d != fl.cfg.entry for v in fl.def_value(d, a) if v[0] == "expr" and isinstance(v[1], ast.Name) for x in [v[1]]}
-            rb = {b2} | {x.id for d in fl.rd[b_at].get(b2, ()) if d != fl.cfg.entry for v in fl.def_value(d, b2) if v[0] == "expr" and isinstance(v[1], ast.Name) for x in [v[1]]}
-            return bool(ra & rb)
+            return bool(related(a, a_at) & related(b2, b_at))
         if cc[2]:
             rep.violation(rid, construct, f"the cell is `{cc[0]}.get_cell()` changed by {cc[2]}: the atoms were wrapped in the basis of the full cell, with another cell "
                           "(e.g. non-periodic vectors dropped, reduced basis) they are no longer inside the cell the search is given and minimum images of bonded pairs are missed",
@@ -522,7 +557,7 @@ def run(rep, ctx):
     with rep.guard("R09.2"):
         r09_2(rep, M, "R09.2")
         from . import c01 as _c01
-        _c01.r01_8_components(rep, M, "R09.2")
+        _c01.r01_8_components(rep, M, "R09.2", shortcut=False)
     with rep.guard("R09.3"):
         r09_3(rep, M, "R09.3")
     rep.rule("R09.4", "the displacement-tensor wrapper hands cutoff, positions and cell to the minimum-image search unreduced")
